@@ -484,6 +484,56 @@ fn run(ctx: &mut Ctx) {
             let _ = feed(ctx, &eps, &b, "all-bytes");
         }
     }
+    // (1b) every longer string over a structural alphabet: counts / content refs 0..4, content kinds (type 7, any 8, skip 10),
+    // item info bytes with origin / right-origin / parent-sub flags (0x27 0x47 0x84), varint continuation bytes (0x7f 0x80 0xff)
+    // and Any tags (array 0x75, string 0x77)
+    const A16: [u8; 16] = [0x00, 0x01, 0x02, 0x03, 0x04, 0x07, 0x08, 0x0a, 0x27, 0x47, 0x84, 0x7f, 0x80, 0xff, 0x75, 0x77];
+    let (lo, hi) = match ctx.tier {
+        Tier::Quick => (3usize, 4usize),
+        Tier::Thorough => (4, 6),
+    };
+    for len in lo..=hi {
+        let total = 16u64.pow(len as u32);
+        for n in 0..total {
+            idx += 1;
+            if !ctx.mine(idx) {
+                continue;
+            }
+            if ctx.out_of_time() {
+                return;
+            }
+            let mut b = vec![0u8; len];
+            let mut x = n;
+            for k in (0..len).rev() {
+                b[k] = A16[(x & 0xf) as usize];
+                x >>= 4;
+            }
+            let _ = feed(ctx, &eps, &b, "alphabet-strings");
+        }
+    }
+    // (1c) thorough: still longer strings (7..8 bytes) over half of that alphabet
+    if ctx.tier == Tier::Thorough {
+        const A8: [u8; 8] = [0x00, 0x01, 0x02, 0x07, 0x27, 0x84, 0x80, 0xff];
+        for len in 7..=8usize {
+            let total = 8u64.pow(len as u32);
+            for n in 0..total {
+                idx += 1;
+                if !ctx.mine(idx) {
+                    continue;
+                }
+                if ctx.out_of_time() {
+                    return;
+                }
+                let mut b = vec![0u8; len];
+                let mut x = n;
+                for k in (0..len).rev() {
+                    b[k] = A8[(x & 0x7) as usize];
+                    x >>= 3;
+                }
+                let _ = feed(ctx, &eps, &b, "alphabet-strings");
+            }
+        }
+    }
     // (3) structural extremes
     for (what, b) in extremes() {
         feed_if(ctx, &eps, &mut idx, &b, what);
